@@ -41,6 +41,15 @@ CHECKS = {
                 '(throws when empty); mutating HDF5 results are checked. Durability against SIGKILL / what libhdf5 has written is a '
                 'crash-point property outside static reach: NOT decided (partial claim).',
     },
+    'C12': {
+        'technique': 'static analysis: entropy-source classification of the generator chain in util::createId (def-use over static '
+                     'locals), value-flow rule createId() -> creating constructor, who-may-write rule for the id keys, R-VAL',
+        'text': 'Decides structural necessary conditions of C12: the uuid generator draws from a process-unique entropy source (a '
+                'clock/constant-only seed is reported), createId returns the formatted uuid, all 12 backend creation sites pass a '
+                'fresh createId() to the creating constructor, entity_id/id keys are written only by creating constructors / '
+                'createHeader / forceId, and no create entry point can re-run a creating constructor on an existing entity. '
+                'Collision probability is not decided.',
+    },
 }
 
 _NYI = 'check not built yet in this session (planned in DESIGN.md); not claimed until its rule runs and is validated'
